@@ -7,7 +7,7 @@ sel = sys.argv[1:]
 rows = []
 for name in sorted(os.listdir(os.path.join(VERIF, "seeded"))):
     d = os.path.join(VERIF, "seeded", name)
-    if sel and not any(s in name for s in sel):
+    if not os.path.isdir(d) or (sel and not any(s in name for s in sel)):
         continue
     meta = json.load(open(os.path.join(d, "meta.json")))
     props = [meta["property"]] + meta.get("also_breaks", [])
